@@ -1,10 +1,66 @@
 import VOPyVerif.Drv.Proto
-/-! Driver front end for property C17 (line protocol → executable model). -/
+import VOPyVerif.Model.ConeConst
+/-! Driver front end for property C17 (cone constants α, d₁, u*, β).
+
+Certificates are *proposed* by the harness (rationals); every op below *verifies* them with the
+checkers of `Model/ConeConst.lean` and answers `inconclusive` when a proposal does not verify
+(never a default value).
+
+* `alo  <W> <n> <x>`     → certified lower bound `w_n·x ≤ α_n` (rational) | `inconclusive`
+* `ahi  <W> <n> <lam>`   → certified upper bound `α_n ≤ hi ≈ ‖w_n + Wᵀλ‖` | `inconclusive`
+* `d1hi <W> <z>`         → certified upper bound `d₁ ≤ hi ≈ ‖z‖`           | `inconclusive`
+* `d1lo <W> <lam>`       → certified lower bound `lo ≈ Σλ/‖Wᵀλ‖ ≤ d₁`      | `inconclusive`
+* `inband <lo> <hi> <tol> <v>` → `ok` / `fail` : `lo − tol ≤ v ≤ hi + tol`
+* `ustar <W> <u> <d> <z> <lam>` → `<n><c><f> <cert>` where `n`,`c`,`f` ∈ {0,1} are
+  `unitNormOk u`, `inConeTol W u`, `feasTol W u d` and `<cert>` is `g,e,lo,bound`
+  (`bound = 2(e+g)/lo` certified bound on the distance of `u/‖u‖` to `u*`) or `inconclusive`
+* `beta <θ>`             → IEEE bit pattern (decimal natural) of `coneBeta θ` at `Float`; θ is the exact
+  `num/den` of the Python float
+-/
 namespace VOPy.Drv.C17
-open VOPy VOPy.Proto
+open VOPy VOPy.Proto VOPy.ConeConst
+
+def inconclusive : String := "inconclusive"
+
+def fmtOpt (o : Option Rat) : String :=
+  match o with
+  | some r => fmtRat r
+  | none => inconclusive
 
 def handle (args : List String) : String :=
   match args with
+  | ["alo", w, n, x] =>
+    match parseMat w, n.toNat?, parseVec x with
+    | some W, some n, some x => fmtOpt (alphaLo W n x)
+    | _, _, _ => bad
+  | ["ahi", w, n, l] =>
+    match parseMat w, n.toNat?, parseVec l with
+    | some W, some n, some lam => fmtOpt (alphaHi W n lam)
+    | _, _, _ => bad
+  | ["d1hi", w, z] =>
+    match parseMat w, parseVec z with
+    | some W, some z => fmtOpt (d1Hi W z)
+    | _, _ => bad
+  | ["d1lo", w, l] =>
+    match parseMat w, parseVec l with
+    | some W, some lam => fmtOpt (d1Lo W lam)
+    | _, _ => bad
+  | ["inband", lo, hi, tol, v] =>
+    match parseRat lo, parseRat hi, parseRat tol, parseRat v with
+    | some lo, some hi, some tol, some v => if lo - tol ≤ v && v ≤ hi + tol then "ok" else "fail"
+    | _, _, _, _ => bad
+  | ["ustar", w, u, d, z, l] =>
+    match parseMat w, parseVec u, parseRat d, parseVec z, parseVec l with
+    | some W, some u, some d, some z, some lam =>
+      let flags := fmtBool (unitNormOk u) ++ fmtBool (inConeTol W u) ++ fmtBool (feasTol W u d)
+      match ustarCert W u d z lam with
+      | some c => flags ++ " " ++ fmtVec [c.1, c.2.1, c.2.2, dirBound c]
+      | none => flags ++ " " ++ inconclusive
+    | _, _, _, _, _ => bad
+  | ["beta", t] =>
+    match parseRat t with
+    | some q => toString (coneBeta (ratToFloat q)).toBits.toNat
+    | none => bad
   | _ => bad
 
 end VOPy.Drv.C17
